@@ -261,11 +261,43 @@ class FuncInfo:
 
 
 def _find_nested(fnode, name):
-    for n in ast.walk(fnode):
-        if n is fnode:
-            continue
-        if isinstance(n, (ast.FunctionDef, ast.AsyncFunctionDef)) and n.name == name:
-            return n
+    """nested def by name; `name@marker` selects the def that lies inside an `if` arm whose test text contains
+    `marker` (the big dispatch functions define many closures with the same name, one per arm)"""
+    marker = None
+    if "@" in name:
+        name, marker = name.split("@", 1)
+    found = []
+
+    def rec(node, tests):
+        for ch in ast.iter_child_nodes(node):
+            if isinstance(ch, (ast.FunctionDef, ast.AsyncFunctionDef)) and ch.name == name and ch is not fnode:
+                found.append((ch, list(tests)))
+            if isinstance(ch, ast.If):
+                t = ast.unparse(ch.test)
+                for b in ch.body:
+                    rec_stmt(b, tests + [t])
+                for b in ch.orelse:
+                    rec_stmt(b, tests)      # elif chains: the test of an earlier arm does not hold here
+            else:
+                rec(ch, tests)
+
+    def rec_stmt(st, tests):
+        if isinstance(st, (ast.FunctionDef, ast.AsyncFunctionDef)) and st.name == name:
+            found.append((st, list(tests)))
+        if isinstance(st, ast.If):
+            t = ast.unparse(st.test)
+            for b in st.body:
+                rec_stmt(b, tests + [t])
+            for b in st.orelse:
+                rec_stmt(b, tests)
+        else:
+            rec(st, tests)
+    rec(fnode, [])
+    if marker is None:
+        return found[0][0] if found else None
+    for node, tests in found:
+        if any(marker in t for t in tests):
+            return node
     return None
 
 
